@@ -108,6 +108,42 @@ type c01Built struct {
 	toks   []uint32
 	now    string // `now` written on the case line: "0", or "1" for the sub-second boundary stream
 	nowSec int64  // the whole second the heartbeats were made relative to
+	// buffers a caller keeps across consecutive lookups WITHOUT re-slicing them to length 0: after a lookup
+	// they hold its result (descs = the returned Instances slice itself, hosts = the ids of the result
+	// appended to the scratch host buffer, zones likewise).
+	keptDescs []ring.InstanceDesc
+	keptHosts []string
+	keptZones []string
+}
+
+// c01Prefilled returns buffers of NON-ZERO length holding ids / zones / descs of ring members (all of them,
+// in id order, rotated by `rot`) and of one non-member: the lookup must treat its buffers as scratch space
+// only, whatever they hold.
+func (b *c01Built) prefilled(rot int, withStranger bool) ([]ring.InstanceDesc, []string, []string) {
+	ids := make([]string, 0, len(b.rel.Ingesters))
+	for id := range b.rel.Ingesters {
+		ids = append(ids, id)
+	}
+	sort.Strings(ids)
+	if len(ids) > 0 {
+		rot %= len(ids)
+		ids = append(append([]string(nil), ids[rot:]...), ids[:rot]...)
+	}
+	bd := make([]ring.InstanceDesc, 0, len(ids)+1)
+	bh := make([]string, 0, len(ids)+1)
+	bz := make([]string, 0, len(ids)+1)
+	for _, id := range ids {
+		in := b.rel.Ingesters[id]
+		bd = append(bd, in)
+		bh = append(bh, id)
+		bz = append(bz, in.Zone)
+	}
+	if withStranger {
+		bd = append(bd, ring.InstanceDesc{Id: "zz-stranger", Addr: "zz-stranger", Zone: "zz-zone"})
+		bh = append(bh, "zz-stranger")
+		bz = append(bz, "zz-zone")
+	}
+	return bd, bh, bz
 }
 
 func c01Build(cfg c01Cfg, rel *ring.Desc) *c01Built {
@@ -175,6 +211,9 @@ func c01Predecessor(abs *ring.Desc, enc string) *ring.Desc {
 }
 
 // api: "get" (Ring.Get with buffer variant buf) or "opt:<n>" (GetWithOptions(WithReplicationFactor(n))).
+// buf: 0 nil buffers, 1 MakeBuffersForGet, 2 empty zero-capacity, 3 tiny capacity, 4/5 NON-ZERO-LENGTH
+// buffers pre-filled with the ids/zones/descs of the ring's members (5: plus a non-member), 6 the buffers
+// kept from this ring's previous lookup handed in as they are (length = size of the previous result).
 func (b *c01Built) lookup(e *env, key uint32, op ring.Operation, api string, buf int) {
 	var rs ring.ReplicationSet
 	var err error
@@ -194,13 +233,22 @@ func (b *c01Built) lookup(e *env, key uint32, op ring.Operation, api string, buf
 				bd, bh = make([]ring.InstanceDesc, 0), make([]string, 0)
 			case 3:
 				bd, bh = make([]ring.InstanceDesc, 0, 1), make([]string, 0, 2)
+			case 4, 5:
+				bd, bh, bz = b.prefilled(int(key%7), buf == 5)
+			case 6:
+				bd, bh, bz = b.keptDescs, b.keptHosts, b.keptZones
 			}
 			rs, err = b.r.Get(key, op, bd, bh, bz)
 		} else {
 			n, _ := strconv.Atoi(api[4:])
 			opts := []ring.Option{ring.WithReplicationFactor(n)}
-			if buf == 1 {
+			switch buf {
+			case 1:
 				opts = append(opts, ring.WithBuffers(ring.MakeBuffersForGet()))
+			case 4, 5:
+				opts = append(opts, ring.WithBuffers(b.prefilled(int(key%7), buf == 5)))
+			case 6:
+				opts = append(opts, ring.WithBuffers(b.keptDescs, b.keptHosts, b.keptZones))
 			}
 			rs, err = b.r.GetWithOptions(key, op, opts...)
 		}
@@ -216,6 +264,16 @@ func (b *c01Built) lookup(e *env, key uint32, op ring.Operation, api string, buf
 			s[i] = showStr(in.Id)
 		}
 		ids = strings.Join(s, ",")
+	}
+	// what a caller that reuses its buffers holds after this lookup: the result in the descs buffer, the
+	// result's ids and zones appended to the (re-sliced once, never again) host and zone buffers
+	if err == nil {
+		b.keptDescs = rs.Instances
+		b.keptHosts, b.keptZones = b.keptHosts[:0], b.keptZones[:0]
+		for _, in := range rs.Instances {
+			b.keptHosts = append(b.keptHosts, in.Id)
+			b.keptZones = append(b.keptZones, in.Zone)
+		}
 	}
 	e.emit("C01.get", b.cfg.String(), b.now, b.relEnc, strconv.FormatUint(uint64(key), 10), c01OpName(op), api,
 		u32s(b.toks), ids, itoa(rs.MaxErrors), cls)
@@ -448,7 +506,7 @@ func runC01(e *env) {
 			b := c01Build(cfg, d)
 			for _, k := range c01Keys(r, b.rel, 0) {
 				for _, op := range c01Ops {
-					b.lookup(e, k, op, "get", r.intn(4))
+					b.lookup(e, k, op, "get", r.intn(7))
 				}
 			}
 		}
@@ -483,7 +541,7 @@ func runC01(e *env) {
 					if r.chance(1, 6) {
 						api = "opt:" + itoa(pick(r, []int{0, -1, cfg.rf - 1, cfg.rf, cfg.rf + 1, cfg.rf * 2}))
 					}
-					b.lookup(e, k, c01RandOp(r), api, r.intn(4))
+					b.lookup(e, k, c01RandOp(r), api, r.intn(7))
 				}
 			}
 		}
@@ -526,7 +584,7 @@ func runC01(e *env) {
 				if !r.chance(1, 2) && k != M && k != M-1 && k != 0 {
 					continue
 				}
-				b.lookup(e, k, c01RandOp(r), "get", r.intn(4))
+				b.lookup(e, k, c01RandOp(r), "get", r.intn(7))
 			}
 		}
 	}
@@ -550,7 +608,7 @@ func runC01(e *env) {
 				if r.chance(1, 3) && len(b.toks) > 0 {
 					k = pick(r, b.toks) - uint32(r.intn(2))
 				}
-				b.lookup(e, k, c01RandOp(r), "get", r.intn(4))
+				b.lookup(e, k, c01RandOp(r), "get", r.intn(7))
 			}
 		}
 	}
@@ -588,7 +646,7 @@ func runC01(e *env) {
 				if len(keys) > 12 && !r.chance(12, len(keys)) {
 					continue
 				}
-				b.lookup(e, k, pick(r, []ring.Operation{ring.Write, ring.Read, ring.Write, ring.Read, ring.WriteNoExtend, ring.Reporting}), "get", r.intn(4))
+				b.lookup(e, k, pick(r, []ring.Operation{ring.Write, ring.Read, ring.Write, ring.Read, ring.WriteNoExtend, ring.Reporting}), "get", r.intn(7))
 			}
 		}
 	}
@@ -625,7 +683,7 @@ func runC01(e *env) {
 				if len(keys) > 8 && !r.chance(8, len(keys)) {
 					continue
 				}
-				lks = append(lks, lk{k, pick(r, c01Ops), r.intn(4)})
+				lks = append(lks, lk{k, pick(r, c01Ops), r.intn(7)})
 			}
 			for attempt := 0; ; attempt++ {
 				for ns := time.Now().Nanosecond(); ns < 2e6 || ns > 8e8; ns = time.Now().Nanosecond() {
